@@ -84,6 +84,20 @@ type c10Case struct {
 	// Reuse: the caller overwrites the memory of every batch once the Write / WriteRows call it was
 	// handed to has returned (views.go)
 	Reuse bool `json:"reuse,omitempty"`
+	// SortingWriter only: PageBufferSize of the writer (0: the default)
+	PageBuf int `json:"page_buffer_size,omitempty"`
+	// the steps are those of a nearly sorted stream (near.go): written out when the case is run
+	Near *c10Near `json:"near,omitempty"`
+}
+
+// MarshalJSON: the steps of a case of the nearly sorted family are a function of its parameters and
+// are left out.
+func (cs c10Case) MarshalJSON() ([]byte, error) {
+	type plain c10Case
+	if cs.Near != nil {
+		cs.Steps = []c10Step{}
+	}
+	return json.Marshal(plain(cs))
 }
 
 type c10Grp struct {
@@ -1293,6 +1307,9 @@ func c10CheckWriter(c *core.Ctx, cs *c10Case) bool {
 		if cs.MaxRowsRG > 0 {
 			wopts = append(wopts, parquet.MaxRowsPerRowGroup(int64(cs.MaxRowsRG)))
 		}
+		if cs.PageBuf > 0 {
+			wopts = append(wopts, parquet.PageBufferSize(cs.PageBuf))
+		}
 		out := new(bytes.Buffer)
 		var written [][]c10Cell
 		closed := false
@@ -1749,6 +1766,7 @@ func c10RepRows(col c10Col, k int, rows [][]c10Cell, rowSep string) string {
 // dispatch, shrinking
 
 func c10Check(c *core.Ctx, cs *c10Case) ([]c10Obs, bool) {
+	cs = c10Expanded(cs)
 	switch cs.Kind {
 	case "writer":
 		return nil, c10CheckWriter(c, cs)
@@ -1881,13 +1899,18 @@ func c10Run(c *core.Ctx, cs *c10Case, bucket string) ([]c10Obs, bool) {
 	obs, ok := []c10Obs(nil), true
 	if c.Probe(func() { c10Check(c, cs) }) {
 		ok = false
-		min := c10Shrink(c, cs)
+		var min *c10Case
+		if cs.Near != nil {
+			min = c10ShrinkNear(c, cs)
+		} else {
+			min = c10Shrink(c, cs)
+		}
 		c10Check(c, min)
 	} else {
 		obs, _ = c10Check(c, cs)
 	}
 	n, sorts := 0, 0
-	for _, st := range cs.Steps {
+	for _, st := range c10Expanded(cs).Steps {
 		n += len(st.Rows)
 		if st.Op == "sort" {
 			sorts++
@@ -2404,7 +2427,7 @@ Definition agrees (c : case) : bool :=
 // ---------------------------------------------------------------------------
 
 func runC10(c *core.Ctx) {
-	c.Res.Rule = "histories (write | writerows)* ; sort ; read ; write more ; sort ; read ... on parquet.NewGenericBuffer[T] (typed column writes), parquet.NewBuffer (dynamic Group schemas, WriteRows / Write), parquet.NewRowBuffer, and parquet.NewSortingWriter (sort-run sizes 1..N, buffer pools, DropDuplicatedRows, MaxRowsPerRowGroup; histories (write | writerows | flush)* close, one writer reused for 2-3 files through Reset, files abandoned by Reset; generated so that a file's smallest key is the previous file's greatest key and occurs once, in its first sort run) with every output file read back and checked against the rows written to it (sorted by Schema.Comparator, permutation; DropDuplicatedRows: one row per key, every key written kept) and against the model of the writer (c10.sw, Sort/Writer.v: same number of rows per file, at every position a row of the model's key, the same rows without DropDuplicatedRows). Schemas: a master struct (required/optional int64 and string columns, a dictionary column, an optional group with a nested optional leaf of max definition level 2, a repeated payload) and generated Group schemas; 1-3 sorting columns, asc/desc x nulls first/last; values from a small domain (duplicates), null/non-null runs of length 1..20 per column. Kinds of sorting columns (types.go): boolean, INT32/INT64 without logical type, INT(8|16|32|64) signed and unsigned, FLOAT, DOUBLE (negative values, +0 and -0, no NaN), BYTE_ARRAY, STRING, ENUM, FIXED_LEN_BYTE_ARRAY(5|16), UUID, DATE, TIME(ms|us|ns), TIMESTAMP(ms|us|ns), DECIMAL on INT32 / INT64 / FIXED_LEN_BYTE_ARRAY(9|16) / BYTE_ARRAY: the cells of such a column are integers (what the model compares) and the column holds their images under a strictly increasing embedding into the values of the type, spread over its whole width (both signs, both halves of the unsigned range, both ends of the domain so that differences overflow the width; checked exhaustively against the harness's comparator at the start of the run); every kind x {Buffer, RowBuffer, SortingWriter[any] over a Group schema, GenericBuffer[T], RowBuffer[T], SortingWriter[T] over a Go struct with fields of the kind (typed.go)} x {required ascending, required descending (no repeated leaf and no optional sorting column: the index fast path of Schema.Comparator), optional ascending/descending x nulls first/last + required}, and as columns of the generated Group schemas (one in three without a repeated leaf) of the random histories. Ordered is decided by the harness's own comparator on the decoded Go values (c10CmpCells: Less(i,j) for all pairs, Schema.Comparator's sign for all pairs, adjacent rows after sort.Sort and of every SortingWriter file, duplicate keys), not by the library's compare functions; the agreement of Less with Schema.Comparator is checked besides. Every swap sort.Sort performs is recorded and replayed in the model. Sorting by repeated columns (a []int64 column and a repeated group's optional leaf with null elements) runs the same histories on GenericBuffer against the model of repeatedColumnBuffer (logical rows, rows after Page, Less matrix == model's Less and == the proved comparator < 0, comparator matrix). Column views (views.go; step cols, drawn after 40% of the sorts (25% in the grid), before the rows are read, and after some writes and reads): every leaf column of a GenericBuffer / Buffer through one of ColumnBuffers()[k].Clone().Page() | Page() | Pages() | ColumnChunks()[k].Pages() | ReadValuesAt (destinations of 1..9 values walked over the column, windows at other offsets, past the end), all columns through the same view or a view per column (only some columns materialised: the model's OPageCol), a RowBuffer through ColumnChunks()[k].Pages(); the values cut into rows and put side by side must be the rows the recorded exchanges put at each position, bit for bit (levels and column index included), sorted after a sort; against the model: logical rows, page rows, and c10.readat for a window of each column read with ReadValuesAt (inside the column or reaching past its end); every clone is read again at the end of the history. Caller reuse (case flag reuse, half of the generated cases of every section and container): once a Write / WriteRows call returned, the harness overwrites all the memory it handed in (parquet.Row values and the bytes their BYTE_ARRAY / FIXED_LEN_BYTE_ARRAY values point to; the Go structs: integers, floats, arrays, byte slices, pointees, slice elements). A case is one history; non-trivial = at least 2 rows and a sort; distinct by the JSON of the case."
+	c.Res.Rule = "histories (write | writerows)* ; sort ; read ; write more ; sort ; read ... on parquet.NewGenericBuffer[T] (typed column writes), parquet.NewBuffer (dynamic Group schemas, WriteRows / Write), parquet.NewRowBuffer, and parquet.NewSortingWriter (sort-run sizes 1..N, buffer pools, DropDuplicatedRows, MaxRowsPerRowGroup; histories (write | writerows | flush)* close, one writer reused for 2-3 files through Reset, files abandoned by Reset; generated so that a file's smallest key is the previous file's greatest key and occurs once, in its first sort run) with every output file read back and checked against the rows written to it (sorted by Schema.Comparator, permutation; DropDuplicatedRows: one row per key, every key written kept) and against the model of the writer (c10.sw, Sort/Writer.v: same number of rows per file, at every position a row of the model's key, the same rows without DropDuplicatedRows). Schemas: a master struct (required/optional int64 and string columns, a dictionary column, an optional group with a nested optional leaf of max definition level 2, a repeated payload) and generated Group schemas; 1-3 sorting columns, asc/desc x nulls first/last; values from a small domain (duplicates), null/non-null runs of length 1..20 per column. Kinds of sorting columns (types.go): boolean, INT32/INT64 without logical type, INT(8|16|32|64) signed and unsigned, FLOAT, DOUBLE (negative values, +0 and -0, no NaN), BYTE_ARRAY, STRING, ENUM, FIXED_LEN_BYTE_ARRAY(5|16), UUID, DATE, TIME(ms|us|ns), TIMESTAMP(ms|us|ns), DECIMAL on INT32 / INT64 / FIXED_LEN_BYTE_ARRAY(9|16) / BYTE_ARRAY, INT96 (ordered as signed 96-bit integers, the order deprecated.Int96.Less documents; images spread over the three words): the cells of such a column are integers (what the model compares) and the column holds their images under a strictly increasing embedding into the values of the type, spread over its whole width (both signs, both halves of the unsigned range, both ends of the domain so that differences overflow the width; checked exhaustively against the harness's comparator at the start of the run); every kind x {Buffer, RowBuffer, SortingWriter[any] over a Group schema, GenericBuffer[T], RowBuffer[T], SortingWriter[T] over a Go struct with fields of the kind (typed.go)} x {required ascending, required descending (no repeated leaf and no optional sorting column: the index fast path of Schema.Comparator), optional ascending/descending x nulls first/last + required}, and as columns of the generated Group schemas (one in three without a repeated leaf) of the random histories. Ordered is decided by the harness's own comparator on the decoded Go values (c10CmpCells: Less(i,j) for all pairs, Schema.Comparator's sign for all pairs, adjacent rows after sort.Sort and of every SortingWriter file, duplicate keys), not by the library's compare functions; the agreement of Less with Schema.Comparator is checked besides. Every swap sort.Sort performs is recorded and replayed in the model. Sorting by repeated columns (a []int64 column and a repeated group's optional leaf with null elements) runs the same histories on GenericBuffer against the model of repeatedColumnBuffer (logical rows, rows after Page, Less matrix == model's Less and == the proved comparator < 0, comparator matrix). Column views (views.go; step cols, drawn after 40% of the sorts (25% in the grid), before the rows are read, and after some writes and reads): every leaf column of a GenericBuffer / Buffer through one of ColumnBuffers()[k].Clone().Page() | Page() | Pages() | ColumnChunks()[k].Pages() | ReadValuesAt (destinations of 1..9 values walked over the column, windows at other offsets, past the end), all columns through the same view or a view per column (only some columns materialised: the model's OPageCol), a RowBuffer through ColumnChunks()[k].Pages(); the values cut into rows and put side by side must be the rows the recorded exchanges put at each position, bit for bit (levels and column index included), sorted after a sort; against the model: logical rows, page rows, and c10.readat for a window of each column read with ReadValuesAt (inside the column or reaching past its end); every clone is read again at the end of the history. Caller reuse (case flag reuse, half of the generated cases of every section and container): once a Write / WriteRows call returned, the harness overwrites all the memory it handed in (parquet.Row values and the bytes their BYTE_ARRAY / FIXED_LEN_BYTE_ARRAY values point to; the Go structs: integers, floats, arrays, byte slices, pointees, slice elements). Nearly sorted streams into the SortingWriter (near.go): streams ordered by a coarse first sorting column and unordered on the later ones, so that sort runs of 1100..3000 rows only touch (ties on the first sorting column, page boundaries on a tie with PageBufferSize 256..2048, stretches of more than 1024 rows that belong to one run). A case is one history; non-trivial = at least 2 rows and a sort; distinct by the JSON of the case (the steps of a nearly sorted case are a function of its parameters)."
 	var vm []string
 	addVm := func(cs *c10Case, obs []c10Obs) {
 		for _, o := range obs {
@@ -2675,6 +2698,17 @@ func runC10(c *core.Ctx) {
 	}
 
 	section("writer-reuse")
+	// ---- nearly sorted streams into the SortingWriter (near.go): sort runs that only touch
+	nNear := c.N(24, 300)
+	for i := 0; i < nNear && c10Hangs == 0; i++ {
+		cs := c10GenNear(c)
+		c10Run(c, cs, "writer-near/"+cs.Cols[1].Type)
+		if i == 0 {
+			c.Sample(cs)
+		}
+	}
+	c.Note("nearly sorted streams: %d SortingWriter cases of 2..4 sort runs of 1100..3000 rows over a stream ordered by the first sorting column only (kinds %s; groups of 1..3 and of up to 1 / 40 / 300 / 900 rows per value, one case in three with rows up to 30 positions late), 2-3 sorting columns (then the optional column of the kind and / or the string), PageBufferSize 256..2048, written in batches of 97 / 1000 / 4096 rows: consecutive sort runs tie on the first sorting column and interleave on the later ones, and stretches of more than 1024 rows belong to one run only (the merge planner streams them out ahead of the merged region, cut at a page boundary)", nNear, strings.Join(c10NearKinds, ", "))
+	section("writer-near")
 	// ---- repeated columns as sorting columns (model: the repeated column buffer alone)
 	repRow := func(id int64, items []int64, nulls []bool, r []int64) []c10Cell {
 		return []c10Cell{{I: id}, {I: 1}, {L: items, N: nulls}, {L: r}}
